@@ -4,7 +4,7 @@ import numpy
 from harness import impl
 from harness.impl import (tok, parse_name, SimplicialComplex, Filtration, Embedding, EulerIntegrator,
                           TriangularLattice, TriangularLatticeEmbedding)
-from harness.oracles import oracle, family, classify, is_auto, full_obs, obs_diff
+from harness.oracles import oracle, family, classify, is_auto, full_obs, obs_diff, vs
 from harness.oracles2 import own_betti, components, _record
 from simplicial.file.json_simplicial import as_json, as_simplicial_complex, write_json, read_json
 
@@ -93,11 +93,11 @@ def o_fresh(w, args):
 
 # ================================================================ C11
 def fam_sets(c):
-    return {frozenset(map(tok, c.basisOf(s))) for s in c.simplices()}
+    return {vs(c, s) for s in c.simplices()}
 
 def clique_family(c):
     pts = [tok(p) for p in (c.simplicesOfOrder(0) if c.maxOrder() >= 0 else [])]
-    edges = {frozenset(map(tok, c.basisOf(e))) for e in (c.simplicesOfOrder(1) if c.maxOrder() >= 1 else [])}
+    edges = {vs(c, e) for e in (c.simplicesOfOrder(1) if c.maxOrder() >= 1 else [])}
     fam = {frozenset([p]) for p in pts} | edges
     adj = {p: set() for p in pts}
     for e in edges:
@@ -198,7 +198,7 @@ def o_c15_pre(w, args):
     rec = {}
     for s in c.simplices():
         rec[tok(s)] = (c.orderOf(s), c.indexOf(s), frozenset(map(tok, c.faces(s))), frozenset(map(tok, c.cofaces(s))),
-                       frozenset(map(tok, c.basisOf(s))), json.dumps(c[s], sort_keys=True), id(c[s]))
+                       vs(c, s), json.dumps(c[s], sort_keys=True), id(c[s]))
     st = {'line': line, 'rec': rec, 'names': {tok(s): s for s in c.simplices()}, 'betti': dict(c.bettiNumbers()),
           'cls': classify(c, line, w)}
     if args[1] == 'relabeldisj':
@@ -276,7 +276,7 @@ def _carried(c, before, f, api, st):
     now = {}
     for s in c.simplices():
         now[tok(s)] = (c.orderOf(s), c.indexOf(s), frozenset(map(tok, c.faces(s))), frozenset(map(tok, c.cofaces(s))),
-                       frozenset(map(tok, c.basisOf(s))), json.dumps(c[s], sort_keys=True), id(c[s]))
+                       vs(c, s), json.dumps(c[s], sort_keys=True), id(c[s]))
     want = {}
     for n, (k, i, fs, cf, bs, a, ida) in before.items():
         want[f(n)] = (k, i, frozenset(map(f, fs)), frozenset(map(f, cf)), frozenset(map(f, bs)), a, ida)
@@ -535,7 +535,7 @@ def o_c19(w, args):
         if type(x) is not int or x < 0:
             return None          # outside the contract of the integral
         h[tok(p)] = x
-    fam = {tok(s): frozenset(map(tok, c.basisOf(s))) for s in c.simplices()}
+    fam = {tok(s): vs(c, s) for s in c.simplices()}
     simplexwise = sum((-1) ** (len(V) - 1) * min(h[p] for p in V) for V in fam.values())
     levels = 0
     H = max(h.values(), default=0)
